@@ -15,6 +15,9 @@ Import ListNotations.
 Local Open Scope string_scope.
 Local Open Scope Z_scope.
 
+(* split conjunctions only (never an equation), then compute each part *)
+Ltac conj := repeat match goal with |- _ /\ _ => split end.
+
 (* after Add(f), Has(f) *)
 Theorem C14_has_after_add : forall x f, has (add x f) f = true.
 Proof. exact has_add. Qed.
@@ -74,6 +77,7 @@ Print Assumptions C14_string_of_declared.
    Other declared values (a zero, composites) may be present in any number. *)
 Theorem C14_string_of_union : forall p T fl g (names : list string) (S : list Z),
   enum_guard p T = true -> generate p T fl = Some g -> f_bit fl = true ->
+  shadow_v T = false ->                      (* K_bit_receiver_shadow: type named V... *)
   Forall (fun v => 0 <= v) (map snd (declared T p)) ->
   S <> [] -> StronglySorted Z.lt S -> Forall single_bit S ->
   Forall2 (fun n s => In (n, s) (declared T p)) names S ->
@@ -87,7 +91,7 @@ Print Assumptions C14_string_of_union.
    bit-flag enums: non-negative values, every bit of every declared value
    (composites!) is itself a declared flag *)
 Theorem C14_string_of_other_is_decimal : forall p T fl g x,
-  enum_guard p T = true -> generate p T fl = Some g ->
+  enum_guard p T = true -> generate p T fl = Some g -> shadow_v T = false ->
   bits_declared (map snd (declared T p)) ->
   ~ In x (map snd (declared T p)) ->
   (x < 0 \/ x = 0 \/ exists i, 0 <= i /\ Z.testbit x i = true /\ ~ In (2 ^ i) (map snd (declared T p))) ->
@@ -137,11 +141,11 @@ Definition ex_pkg : pkg :=
 Definition bit_flags : flags := {| f_bit := true; f_json := false; f_text := false; f_sql := false; f_gorm := false |}.
 
 Example C14_example_guard :
-  enum_guard ex_pkg "Perm" = true
+  enum_guard ex_pkg "Perm" = true /\ shadow_v "Perm" = false /\ shadow_i "Perm" = false
   /\ bits_declared_b (map snd (declared "Perm" ex_pkg)) = true
   /\ declared "Perm" ex_pkg =
        [("PermNone", 0); ("PermRead", 1); ("PermWrite", 2); ("PermExec", 4); ("PermRW", 3); ("Sticky", 64); ("PermAll", 71)].
-Proof. vm_compute. repeat split. Qed.
+Proof. conj; vm_compute; reflexivity. Qed.
 
 (* S = {Read, Exec, Sticky}: union 69 is not declared *)
 Example C14_example_union_hypotheses :
@@ -152,7 +156,7 @@ Proof.
   repeat split.
   - repeat constructor.
   - repeat constructor; [exists 0 | exists 2 | exists 6]; split; reflexivity || (cbn; discriminate) || (apply Z.leb_le; reflexivity).
-  - repeat constructor; vm_compute; tauto.
+  - repeat (apply Forall2_cons; [vm_compute; tauto|]). apply Forall2_nil.
   - vm_compute. intuition discriminate.
 Qed.
 
@@ -160,4 +164,42 @@ Example C14_example_strings :
   exists g, generate ex_pkg "Perm" bit_flags = Some g
     /\ map (str_of (const_env ex_pkg) g) [0; 3; 5; 69; 7; 71; 8; 72; 128; -1]
        = ["None"; "RW"; "Read, Exec"; "Read, Exec, Sticky"; "Read, Write, Exec"; "All"; "8"; "72"; "128"; "-1"].
-Proof. eexists. vm_compute. repeat split. Qed.
+Proof. eexists. conj; vm_compute; reflexivity. Qed.
+
+(* ----------------------------- the receiver guard is needed: known finding ---- *)
+(* K_bit_receiver_shadow (open).  The receiver of the generated methods is the
+   lower-cased first letter of the type name and the -bit String() calls its
+   working copy <receiver>_ ; the loop of the template declares i_ and v_.
+   Type name V...: the loop's v_ shadows the working copy, the output compiles
+   and String() of a union of declared flags is decimal, String(0) lists every flag. *)
+Definition vis_pkg : pkg :=
+  {| p_types := [("Vis", KUint8)];
+     p_files := [ [ [ vs ["VisA"] (TIdent "Vis") [EShl (ELit 1) EIota];
+                      vs ["VisB"] TNone []; vs ["VisC"] TNone [] ] ] ] |}.
+
+Theorem C14_refuted_K_bit_receiver_shadow_v :
+  exists p T g,
+    enum_guard p T = true /\ generate p T bit_flags = Some g
+    /\ bits_declared_b (map snd (declared T p)) = true
+    /\ compiles (const_env p) g false = true
+    /\ In ("VisA", 1) (declared T p) /\ In ("VisB", 2) (declared T p)
+    /\ str_of (const_env p) g (lor_all [1; 2]) = "3"
+    /\ str_of (const_env p) g 0 = "A, B, C".
+Proof.
+  exists vis_pkg, "Vis". eexists. conj; vm_compute; try reflexivity; tauto.
+Qed.
+Print Assumptions C14_refuted_K_bit_receiver_shadow_v.
+
+(* Type name I...: the loop counter i_ shadows the working copy: `i_.Has` on an
+   int, the fresh output does not compile *)
+Definition idx_pkg : pkg :=
+  {| p_types := [("IOMode", KUint8)];
+     p_files := [ [ [ vs ["IOModeR"] (TIdent "IOMode") [EShl (ELit 1) EIota];
+                      vs ["IOModeW"] TNone [] ] ] ] |}.
+
+Theorem C14_refuted_K_bit_receiver_shadow_i :
+  exists p T g,
+    enum_guard p T = true /\ generate p T bit_flags = Some g
+    /\ compiles (const_env p) g false = false.
+Proof. exists idx_pkg, "IOMode". eexists. conj; vm_compute; reflexivity. Qed.
+Print Assumptions C14_refuted_K_bit_receiver_shadow_i.
